@@ -151,6 +151,7 @@ type polCase struct {
 	TimeFrame []string      `json:"time_frame,omitempty"`
 	Start     time.Duration `json:"start"` // clock offset from Sat 2000-01-01 00:00 before anything starts
 	// routing
+	FlakyDial int       `json:"flaky_dial,omitempty"` // the first N connection attempts to every address are refused (the dialer retries)
 	Upstream  string    `json:"upstream,omitempty"` // URL
 	PAC       string    `json:"pac,omitempty"`
 	Direct    []string  `json:"direct,omitempty"`
@@ -595,6 +596,23 @@ func runPol(env *core.Env, c *polCase, oracle func(w *polWorld, s *sut.SUT)) {
 	sut.Install(env)
 	w := newPolWorld(env, c)
 	w.setup()
+	if c.FlakyDial > 0 {
+		var fmu sync.Mutex
+		attempts := map[string]int{}
+		env.Net.DialFault = func(from, addr string, _ int) simnet.DialOutcome {
+			if from != "sut" {
+				return simnet.DialAccept
+			}
+			fmu.Lock()
+			defer fmu.Unlock()
+			attempts[addr]++
+			if attempts[addr] <= c.FlakyDial {
+				env.Fault("transient-dial-refusal")
+				return simnet.DialRefuse
+			}
+			return simnet.DialAccept
+		}
+	}
 	if c.Start > 0 {
 		time.Sleep(c.Start)
 	}
